@@ -137,6 +137,8 @@ class Ref:
             del l[:]
         elif k == "sort":
             l.sort(reverse=op[1])
+        elif k == "sortkey":
+            l.sort(key=lambda t: t % op[1], reverse=op[2])
         elif k == "reverse":
             l.reverse()
         elif k == "update":
@@ -354,7 +356,9 @@ def _gen_mixed(rng, tier, weights):
             op = _setop(rng, ref, univ, sortable)
         else:
             q = rng.random()
-            if q < 0.45 and sortable:
+            if q < 0.15:
+                op = ["sortkey", rng.choice([1, 2, 3, 5]), rng.random() < 0.4]    # needs no ordering of the items
+            elif q < 0.45 and sortable:
                 op = ["sort", rng.random() < 0.3]
             elif q < 0.8:
                 op = ["reverse"]
@@ -412,7 +416,7 @@ def _gen_deletion(rng, tier):
         elif r < 0.72:
             op = ["add", rng.randrange(univ + j)]
         elif r < 0.76:
-            op = rng.choice([["sort", False], ["reverse"], ["sort", True]])
+            op = rng.choice([["sort", False], ["reverse"], ["sort", True], ["sortkey", 3, False], ["sortkey", 2, True]])
             if rng.random() < 0.12 and n > 4:
                 # clear while tombstones exist, refill with part of the old content
                 ops.append(["clear"])
@@ -913,6 +917,9 @@ def _run_history(case, IndexedSet):
                     s.sort(reverse=True)
                 else:
                     s.sort()
+            elif k == "sortkey":
+                m_ = op[1]
+                s.sort(key=lambda o_: T.tok(o_) % m_, reverse=bool(op[2]))
             elif k == "reverse":
                 s.reverse()
             elif k == "update":
@@ -1154,6 +1161,8 @@ def _op(op, orders):
         return "Clear"
     if k == "sort":
         return "Sort %s" % cbool(op[1])
+    if k == "sortkey":
+        return "SortKey %s %s" % (_nat(op[1]), cbool(op[2]))
     if k == "reverse":
         return "Reverse"
     multi = {"update": "Update", "iupdate": "IntersectionUpdate", "dupdate": "DifferenceUpdate",
@@ -1316,7 +1325,7 @@ def nontrivial(case, obs):
             tomb = True
         if k in ("iupdate", "dupdate", "sdupdate") or (k == "selfmix" and op[1] in ("iupdate", "dupdate")):
             tomb = True
-        if k in ("clear", "sort", "reverse"):
+        if k in ("clear", "sort", "reverse", "sortkey"):
             tomb = False
         ref.apply(op)
         if tomb and case["digests"]:
